@@ -49,6 +49,7 @@ type MatCase struct {
 	Sing string    `json:"sing"`
 	Tri  bool      `json:"tri"`
 	Spd  bool      `json:"spd"`
+	Sym  bool      `json:"sym"`
 	L    [][]int64 `json:"L"`
 	Inv  [][]Rat   `json:"inv"`
 	Kap  Rat       `json:"kap"`
@@ -218,6 +219,15 @@ type outcome struct {
 }
 
 func (o outcome) loud() bool { return o.err != "" || o.panic != "" }
+func (o outcome) class() string {
+	if o.panic != "" {
+		return "panic"
+	}
+	if o.err != "" {
+		return "error"
+	}
+	return "ok"
+}
 func (o outcome) String() string {
 	if o.panic != "" {
 		return "panic: " + o.panic
